@@ -175,6 +175,10 @@ public:
 
   // registry mode needs no alignment of the region to its size, so it deliberately gets none: a translation that
   // forgets the null short-circuit or masks where it should subtract becomes visible
+  ~mbox()
+  {
+    if (mapping) munmap(mapping, mapping_len); // a history that ended in an abort may leave the instance mapped
+  }
   static uintptr_t base_of_index(int idx) { return (uintptr_t)MBOX_BASE0 + (uintptr_t)idx * kSpacing + (Cfg::mode == REGISTRY ? 0x3000 : 0); }
   uint8_t* mem() const { return reinterpret_cast<uint8_t*>(base); }
 
